@@ -14,7 +14,7 @@ from __future__ import annotations
 from ..absint import eval_term
 from ..facts import AnalysisError
 from ..terms import const, contains, show, strip_sites
-from ..util import InlineOnly, NoInline, P, Scan, calls_to, engine, loc, param_at
+from ..util import InlineOnly, NoInline, P, Scan, calls_to, engine, loc, param_at, sched_targets
 from .C10 import ANN, INST, timing_leaf
 
 PROTO = "sd.ServiceDiscoveryProtocol"
@@ -108,13 +108,16 @@ def check(run, prog, tier):
             checked += 1
             targets = []
             for e in scheds:
-                cb = e.cb
-                if cb is None or cb[0] != "bound" or cb[2] != so.qual:
-                    probs.setdefault("F2:answer-target", f"schedules {show(cb)[:60]}, not the matching instance's offer sender")
+                tg = sched_targets(eng, p, e, hf)
+                if len(tg) != 1 or tg[0][0][0] != "bound" or tg[0][0][2] != so.qual:
+                    probs.setdefault("F2:answer-target", f"schedules {show(e.cb)[:60]}, not the matching instance's offer sender")
                     continue
+                cb, cargs, ckw = tg[0]
                 targets.append(cb[1])
-                if tuple(e.cbargs) != (addr,):
-                    probs.setdefault("F2:answer-destination", f"the answer is scheduled with arguments ({', '.join(show(a) for a in e.cbargs)}); must be the requester's address only")
+                dest = cargs[0] if cargs else dict(ckw).get("remote")
+                extra = [k for k, v in ckw if k != "remote"] + list(cargs[1:])
+                if dest != addr or extra:
+                    probs.setdefault("F2:answer-destination", f"the answer is scheduled with arguments ({', '.join(show(a) for a in cargs)} {dict(ckw)}); must be the requester's address only")
             if sorted(map(repr, targets)) != sorted(map(repr, matched)):
                 probs.setdefault("F2:one-answer-per-matching-instance",
                                  f"{len(matched)} instance(s) matched but answers were scheduled for {len(targets)} ({[show(t_)[:30] for t_ in targets]})")
@@ -164,6 +167,10 @@ def check(run, prog, tier):
             n += 1
             okc = c.arg(2, "received_over_multicast") == mcp and c.arg(1, "addr") == adp and c.args[0][0] == "elem"
     run.ob("F3", f"{smr.qual}:passes-channel-and-sender", okc and n >= 1, loc(smr), "FindService entries are handed over with the sender address and the reception channel")
+
+    # every entry handed to queue_send is transmitted exactly once (C15 rule set as supporting obligations)
+    from .C15 import queue_exactly_once
+    queue_exactly_once(run, prog, tier, "F5", timing=True)
 
     # ------------------------------------------------------------------ F4 / O4: the answer itself
     qs = prog.lookup_method(ANN, "queue_send")
